@@ -68,6 +68,25 @@ NPRED = {
 }
 
 
+class _ArgList(list):
+    """the plain arrays handed to a call, each remembered as it was when handed over"""
+    def __init__(self):
+        super().__init__()
+        self.before = []
+
+    def append(self, arr):
+        super().append(arr)
+        self.before.append(np.array(arr, copy=True))
+
+    def __iadd__(self, arrs):
+        for a in arrs:
+            self.append(a)
+        return self
+
+    def modified(self):
+        return any(a.shape != b.shape or not np.array_equal(a, b, equal_nan=True) for a, b in zip(self, self.before))
+
+
 class ImplStore:
     def __init__(self):
         self.objs = {}
@@ -82,7 +101,7 @@ class ImplStore:
         ret = None
         outcome = "ok"
         self.warned_inconsistent = False
-        self.last_args = []      # plain arrays handed to the call (checked for aliasing / modification by C03)
+        self.last_args = _ArgList()      # plain arrays handed to the call (checked for aliasing / modification)
         with warnings.catch_warnings(record=True) as w:
             warnings.simplefilter("always")
             try:
